@@ -180,3 +180,7 @@ def run(prog: Program, res: Result, tier: str) -> None:
                             instance=inst)
     label_guards(prog, res)
     res.need("R-VALIDATE-FIRST", n, 50, "mutator x class instances")
+    # third clause: lookups about absent atoms / bonds never change any view
+    from . import C09
+    C09.check_readonly(prog, res)
+    C09.check_no_autoviv(prog, res)
